@@ -329,3 +329,99 @@ func zzC13_space() {
 	zzAssert(zzStrEq(x.Tiff.Make, mk) && zzStrEq(x.Tiff.Model, md), "values are reported exactly whatever the length of the white space between the tokens")
 	zzReached("end")
 }
+
+// bytes before the root element are skipped: long junk without any '<' (longer than the reader's 1538-byte window) or
+// with stray '<' characters in it; the first and last junk bytes are arbitrary
+func zzC13_junk_N() int { return 8 }
+func zzC13_junk() {
+	n := []int{100, 1537, 1538, 1539, 3076, 3300, 1600, 3100}[zzPart()]
+	j := make([]byte, n)
+	for i := range j {
+		j[i] = "xy \n"[i%4]
+		if zzPart() >= 6 && i%700 == 699 {
+			j[i] = '<'
+		}
+	}
+	e := zzBytes("j", 2)
+	zzAssume(e[0] != '<' && e[1] != '<')
+	j[0], j[n-1] = e[0], e[1]
+	zzQuoteClass = 1
+	mk, md := zzVal("mk", 2), zzVal("md", 2)
+	b := zzCat(j, zzHead, `<rdf:Description rdf:about="" tiff:Make="`, mk, `"><tiff:Model>`, md, `</tiff:Model></rdf:Description>`, zzTail)
+	x, err := ParseXmp(zzReaderOf(b))
+	zzAssert(err == nil, "bytes before the root element are skipped whatever their number")
+	zzAssert(zzStrEq(x.Tiff.Make, mk) && zzStrEq(x.Tiff.Model, md), "values after long leading junk are reported exactly")
+	zzReached("end")
+}
+
+// the other supported simple properties: string-valued ones are reported byte for byte, unsigned ones as the decimal
+// value (below the type's maximum), each as an attribute and as an element, next to an unknown property
+type zzPropS struct {
+	name string
+	get  func(x *XMP) string
+}
+
+var zzStrProps = []zzPropS{
+	{"aux:SerialNumber", func(x *XMP) string { return x.Aux.SerialNumber }},
+	{"aux:LensInfo", func(x *XMP) string { return x.Aux.LensInfo }},
+	{"aux:Lens", func(x *XMP) string { return x.Aux.Lens }},
+	{"aux:LensSerialNumber", func(x *XMP) string { return x.Aux.LensSerialNumber }},
+	{"xmpMM:PreservedFileName", func(x *XMP) string { return x.MM.PreservedFileName }},
+	{"xapMM:PreservedFileName", func(x *XMP) string { return x.MM.PreservedFileName }},
+	{"crs:RawFileName", func(x *XMP) string { return x.CRS.RawFileName }},
+	{"xap:CreatorTool", func(x *XMP) string { return x.Basic.CreatorTool }},
+	{"xap:Label", func(x *XMP) string { return x.Basic.Label }},
+	{"tiff:Make", func(x *XMP) string { return x.Tiff.Make }},
+}
+
+type zzPropU struct {
+	name string
+	max  uint64 // values below max are reported, others give 0
+	get  func(x *XMP) uint64
+}
+
+var zzUintProps = []zzPropU{
+	{"tiff:ImageLength", 65535, func(x *XMP) uint64 { return uint64(x.Tiff.ImageLength) }},
+	{"exif:PixelXDimension", 1 << 32, func(x *XMP) uint64 { return uint64(x.Exif.PixelXDimension) }},
+	{"exif:PixelYDimension", 1 << 32, func(x *XMP) uint64 { return uint64(x.Exif.PixelYDimension) }},
+	{"exif:ISOSpeedRatings", 1 << 32, func(x *XMP) uint64 { return uint64(x.Exif.ISOSpeedRatings) }},
+	{"exif:ExposureProgram", 10, func(x *XMP) uint64 { return uint64(x.Exif.ExposureProgram) }},
+	{"exif:ExposureMode", 3, func(x *XMP) uint64 { return uint64(x.Exif.ExposureMode) }},
+	{"exif:MeteringMode", 7, func(x *XMP) uint64 { return uint64(x.Exif.MeteringMode) }},
+	{"aux:LensID", 1 << 32, func(x *XMP) uint64 { return uint64(x.Aux.LensID) }},
+	{"aux:ImageNumber", 65535, func(x *XMP) uint64 { return uint64(x.Aux.ImageNumber) }},
+	{"xap:Rating", 128, func(x *XMP) uint64 { return uint64(x.Basic.Rating) }},
+}
+
+func zzOneProp(name string, v []byte, form int) []byte {
+	if form == 0 {
+		return zzCat(zzHead, `<rdf:Description rdf:about="" zz:Foreign="x1" `, name, `="`, v, `" tiff:Model="md"/>`, zzTail)
+	}
+	return zzCat(zzHead, `<rdf:Description rdf:about=""><zz:Foreign>x1</zz:Foreign><`, name, `>`, v, `</`, name, `><tiff:Model>md</tiff:Model></rdf:Description>`, zzTail)
+}
+
+func zzC13_strprops_N() int { return 20 }
+func zzC13_strprops() {
+	p, form := zzStrProps[zzPart()/2], zzPart()%2
+	zzQuoteClass = 1 - form
+	v := zzVal("v", 5)
+	x, err := ParseXmp(zzReaderOf(zzOneProp(p.name, v, form)))
+	zzAssert(err == nil, "a well-formed packet parses without error")
+	zzAssert(zzStrEq(p.get(&x), v), "a string-valued property is reported byte for byte")
+	zzAssert(x.Tiff.Model == "md", "the property after it is reported too")
+	zzReached("end")
+}
+
+func zzC13_uintprops_N() int { return 20 }
+func zzC13_uintprops() {
+	p, form := zzUintProps[zzPart()/2], zzPart()%2
+	d := zzDig("d", 3)
+	x, err := ParseXmp(zzReaderOf(zzOneProp(p.name, d, form)))
+	zzAssert(err == nil, "a well-formed packet parses without error")
+	want := zzDec(d)
+	if want < p.max {
+		zzAssert(p.get(&x) == want, "an unsigned property is reported with its decimal value")
+	}
+	zzAssert(x.Tiff.Model == "md", "the property after it is reported too")
+	zzReached("end")
+}
